@@ -111,6 +111,26 @@ def job_solve(WG, job, seed):
     return ev
 
 
+def job_fdhist(WG, job, seed):
+    """two spectral solves of one solver with EOM.getBoltzmannFiniteDifference in between"""
+    M, N, P, bN = job["M"], job["N"], job["P"], job["bN"]
+    ev = {"e": "fdhist", "M": M, "N": N, "P": P, "bN": bN}
+    bs, grid, parts = solver(WG, M, N, P, "Cardinal", bN, "Spectral", "all", seed)
+    d1 = deltas_array(bs.getDeltas())
+
+    class Fake:
+        pass
+
+    fake = Fake()
+    fake.boltzmannSolver = bs
+    fd = deltas_array(WG.EOM.getBoltzmannFiniteDifference(fake))
+    d2 = deltas_array(bs.getDeltas())
+    ev["same"] = bool(np.array_equal(d1, d2))
+    ev["basisKept"] = bool(bs.collisionArray.getBasisType() == bN and bs.basisN == bN and bs.derivatives == "Spectral")
+    ev["fdFinite"] = bool(np.all(np.isfinite(fd)) and fd.shape == d1.shape)
+    return ev
+
+
 def job_basis(WG, job, seed):
     M, N, P, bg = job["M"], job["N"], job["P"], job["bg"]
     ev = {"e": "basis", "M": M, "N": N, "P": P, "bg": bg, "cmp": []}
@@ -153,9 +173,12 @@ def job_moment(WG, job, seed):
     N = job["N"]
     M = 6
     scale = [0.01, 1.0, 30.0, 1e3][job["scale"]]         # momentum scale T0
-    ev = {"e": "moment", "N": N, "scale": job["scale"], "mass": job["mass"]}
+    gk = job.get("grid", "Grid")
+    ev = {"e": "moment", "N": N, "scale": job["scale"], "mass": job["mass"], "grid": gk}
     rng = np.random.default_rng(seed + 7 * N + job["scale"] + 31 * job["mass"])
-    grid = WG.Grid(M, N, 1.0, scale)
+    # same momentum map on both grid classes (p_z = 2 T0 atanh(rho_z), p_par = -T0 log((1-rho_par)/2)); Grid3Scales has its own
+    # implementation of the Jacobians
+    grid = WG.Grid(M, N, 1.0, scale) if gk == "Grid" else WG.Grid3Scales(M, N, 3.0, 2.0, 1.0, scale, 0.75, 0.1)
     parts = particles(WG, 2)
     bs = WG.BoltzmannSolver(grid, "Cardinal", "Cardinal")
     bs.updateParticleList(parts)
@@ -237,7 +260,7 @@ def run_job(args):
     warnings.filterwarnings("ignore")
     key = json.dumps(job, sort_keys=True)
     try:
-        ev = {"solve": job_solve, "basis": job_basis, "fd": job_fd, "moment": job_moment}[job["kind"]](WG, job, seed)
+        ev = {"solve": job_solve, "basis": job_basis, "fd": job_fd, "fdhist": job_fdhist, "moment": job_moment}[job["kind"]](WG, job, seed)
         ev["out"] = "ok"
     except Exception as ex:  # judged by TLC
         ev = {"e": job["kind"], "out": type(ex).__name__, "msg": str(ex)[:200]}
